@@ -469,6 +469,7 @@ Definition doc_text (kind : N) (part : str) : str :=
   else if kind =? 3 then [113; 117; 101; 114; 121; 40; 36; 118; 58] ++ part ++ [41; 123; 97; 125]
   else if kind =? 4 then [123; 102; 40; 97; 58] ++ part ++ [41; 125]
   else if kind =? 5 then [113; 117; 101; 114; 121; 40; 36; 118; 58; 83; 61; 34; 34; 34] ++ part ++ [34; 34; 34; 41; 123; 97; 125]
+  else if kind =? 6 then [113; 117; 101; 114; 121; 40; 36; 118; 58; 73; 110; 116; 32] ++ part ++ [41; 123; 97; 125]
   else part.
 
 Definition field_f_a (v : pvalue) : list pdef :=
@@ -488,6 +489,58 @@ Fixpoint has_sub (p s : str) : bool :=
   match s with
   | [] => match p with [] => true | _ => false end
   | _ :: r => match match_prefix p s with Some _ => true | None => has_sub p r end
+  end.
+
+(* Directives over tokens: ( '@' Name Arguments? )*  — all tokens must be used *)
+Fixpoint spec_args_tokens (k : nat) (ts : list token) (acc : list (str * pvalue)) : option (list (str * pvalue) * list token) :=
+  match k with
+  | O => None
+  | S k' =>
+    match ts with
+    | TPunct 41 :: rest => match acc with [] => None | _ => Some (rev acc, rest) end
+    | TName n :: TPunct 58 :: rest =>
+      match spec_value_tokens (S (length rest)) rest with
+      | Some (v, rest') => spec_args_tokens k' rest' ((n, v) :: acc)
+      | None => None
+      end
+    | _ => None
+    end
+  end.
+Fixpoint spec_dirs_tokens (k : nat) (ts : list token) (acc : list pdirective) : option (list pdirective) :=
+  match k with
+  | O => None
+  | S k' =>
+    match ts with
+    | [] => Some (rev acc)
+    | TPunct 64 :: TName n :: TPunct 40 :: rest =>
+      match spec_args_tokens (S (length rest)) rest [] with
+      | Some (args, rest') => spec_dirs_tokens k' rest' ({| pd_name := n; pd_args := args |} :: acc)
+      | None => None
+      end
+    | TPunct 64 :: TName n :: rest => spec_dirs_tokens k' rest ({| pd_name := n; pd_args := [] |} :: acc)
+    | _ => None
+    end
+  end.
+(* Value[Const]: no variable anywhere *)
+Fixpoint has_var (v : pvalue) : bool :=
+  match v with
+  | PVVar _ => true
+  | PVList l => (fix go (l : list pvalue) : bool := match l with [] => false | x :: r => has_var x || go r end) l
+  | PVObj l => (fix go (l : list (str * pvalue)) : bool := match l with [] => false | (_, x) :: r => has_var x || go r end) l
+  | _ => false
+  end.
+
+(* VariableDefinition tail (2.10): DefaultValue? Directives? *)
+Definition spec_vardef_tail (ts : list token) : option (option pvalue * list pdirective) :=
+  match ts with
+  | TPunct 61 :: rest =>
+    match spec_value_tokens (S (length rest)) rest with
+    | Some (v, rest') =>
+      if has_var v then None
+      else option_map (fun d => (Some v, d)) (spec_dirs_tokens (S (length rest')) rest' [])
+    | None => None
+    end
+  | _ => option_map (fun d => (None, d)) (spec_dirs_tokens (S (length ts)) ts [])
   end.
 
 (* what the specification expects of a case; None = this file states no
@@ -530,6 +583,20 @@ Definition spec_expect (kind : N) (part : str) : option (outcome (list pdef)) :=
             | None => Err E_SYNTAX
             end)
     else None
+  else if kind =? 6 then
+    match spec_lex (S (length part)) part with
+    | Some ts =>
+      match spec_vardef_tail ts with
+      | Some (dv, dirs) =>
+        Some (Ok [DOp {| po_name := None; po_ty := POQuery;
+                         po_vars := [{| pv_name := [118]; pv_ty := TNamed [73; 110; 116] true; pv_dirs := dirs; pv_default := dv |}];
+                         po_dirs := []; po_sels := [PField None [97] [] [] []] |}])
+      | None =>
+        if forallb (fun c => negb ((c =? 40) || (c =? 41) || (c =? 35) || (c =? 34) || (c =? 33) || (c =? 36))) part
+        then Some (Err E_SYNTAX) else None
+      end
+    | None => None
+    end
   else if kind =? 4 then
     (* only parts made of value tokens; ':' '(' ')' '@' could leave the frame *)
     if forallb (fun c => negb ((c =? 40) || (c =? 41) || (c =? 64) || (c =? 35))) part then
@@ -617,6 +684,11 @@ Fixpoint block_bodies (fuel : nat) (s : str) : list str :=
 Definition known_class (kind : N) (part : str) : N :=
   if (kind =? 2) || (kind =? 5) then (if kc_block_escape part then 1 else if kc_block_short_blank part then 2 else 0)
   else if kind =? 3 then (if kc_type_inner_ignored part then 3 else 0)
+  else if kind =? 6 then
+    (if existsb (N.eqb 61) part && existsb (N.eqb 64) part then 7
+     else if kc_float_range part then 5 else if kc_token_boundary part then 4
+     else if kc_block_escape part then 1
+     else if existsb kc_block_short_blank (block_bodies (S (length part)) part) then 2 else 0)
   else if kind =? 4 then
     (if kc_float_range part then 5 else if kc_token_boundary part then 4
      else if kc_block_escape part then 1
@@ -639,41 +711,239 @@ Definition check_tnew (c : str * option ptype) : N :=
   let model := type_new (S (length s)) s in
   verdict (opt_eqb type_eqb impl model) true true 0.
 
-(* parse_schema: accept/reject and the list of definitions, at the grammar level *)
-Definition sdl_kind_code (r : N) : N :=
-  if r =? R_scalar_type then 1 else if r =? R_object_type then 2 else if r =? R_interface_type then 3
-  else if r =? R_union_type then 4 else if r =? R_enum_type then 5 else if r =? R_input_object_type then 6
-  else if r =? R_schema_definition then 7 else if r =? R_directive_definition then 8 else 0.
+(* ===================== service documents: SPEC ========================= *)
+(* The tree a service document denotes, read off the parse tree of the
+   regenerated grammar BY RULE NAME (never by the order in which pairs happen
+   to be consumed); values through the token-level [spec_value], types through
+   [spec_type], strings through [spec_string] / [spec_block]. *)
+Definition find_rule (r : N) (l : list tree) : option tree :=
+  match filter (fun x => t_rule x =? r) l with x :: _ => Some x | [] => None end.
+Definition all_rule (r : N) (l : list tree) : list tree := filter (fun x => t_rule x =? r) l.
 
-(* a number pair whose lexeme serde_json rejects (the builders answer Error::Syntax) *)
-Fixpoint bad_number (fuel : nat) (t : tree) : bool :=
-  match fuel with
-  | O => false
-  | S f =>
-    ((t_rule t =? R_number) && match parse_number_lexeme (t_text t) with NumErr => true | _ => false end)
-    || existsb (bad_number f) (t_kids t)
+Definition oo {A B} (x : option A) (f : A -> outcome B) : outcome B :=
+  match x with Some a => f a | None => Err E_SYNTAX end.
+
+Definition sp_name (l : list tree) : outcome str := oo (find_rule R_name l) (fun n => Ok (t_text n)).
+
+Definition sp_string (t : tree) : outcome str :=
+  match find_rule R_block_string_content (t_kids t), find_rule R_string_content (t_kids t) with
+  | Some b, _ => Ok (spec_block (t_text b))
+  | None, Some c => oo (spec_string (t_text c)) Ok
+  | None, None => Err E_SYNTAX
   end.
 
-Definition check_sdl (c : str * outcome (list (N * str * option str))) : N :=
+Definition sp_desc (l : list tree) : outcome (option str) :=
+  match find_rule R_string l with
+  | Some d => bindo (sp_string d) (fun s => Ok (Some s))
+  | None => Ok None
+  end.
+
+Definition sp_value (t : tree) : outcome pvalue := oo (spec_value (t_text t)) Ok.
+Definition sp_type (l : list tree) : outcome ptype :=
+  oo (find_rule R_type_ l) (fun t => oo (spec_type (t_text t)) Ok).
+
+Definition sp_directives (l : list tree) : outcome (list pdirective) :=
+  match find_rule R_const_directives l with
+  | None => Ok []
+  | Some ds =>
+    mapo (fun d =>
+      bindo (sp_name (t_kids d)) (fun name =>
+      bindo (match find_rule R_const_arguments (t_kids d) with
+             | None => Ok []
+             | Some a => mapo (fun x =>
+                 bindo (sp_name (t_kids x)) (fun k =>
+                 bindo (oo (find_rule R_const_value (t_kids x)) sp_value) (fun v => Ok (k, v))))
+                 (all_rule R_const_argument (t_kids a))
+             end) (fun args => Ok {| pd_name := name; pd_args := args |})))
+      (all_rule R_const_directive (t_kids ds))
+  end.
+
+Definition sp_input_value (t : tree) : outcome sinput :=
+  let l := t_kids t in
+  bindo (sp_desc l) (fun desc =>
+  bindo (sp_name l) (fun name =>
+  bindo (sp_type l) (fun ty =>
+  bindo (match find_rule R_default_value l with
+         | None => Ok None
+         | Some d => bindo (oo (find_rule R_const_value (t_kids d)) sp_value) (fun v => Ok (Some v))
+         end) (fun dv =>
+  bindo (sp_directives l) (fun dirs =>
+  Ok {| iv_desc := desc; iv_name := name; iv_ty := ty; iv_default := dv; iv_dirs := dirs |}))))).
+
+Definition sp_input_values (r : N) (l : list tree) : outcome (list sinput) :=
+  match find_rule r l with
+  | None => Ok []
+  | Some a => mapo sp_input_value (all_rule R_input_value_definition (t_kids a))
+  end.
+
+Definition sp_field (t : tree) : outcome sfield :=
+  let l := t_kids t in
+  bindo (sp_desc l) (fun desc =>
+  bindo (sp_name l) (fun name =>
+  bindo (sp_input_values R_arguments_definition l) (fun args =>
+  bindo (sp_type l) (fun ty =>
+  bindo (sp_directives l) (fun dirs =>
+  Ok {| fd_desc := desc; fd_name := name; fd_args := args; fd_ty := ty; fd_dirs := dirs |}))))).
+
+Definition sp_names_in (r : N) (l : list tree) : list str :=
+  match find_rule r l with
+  | None => []
+  | Some x => map t_text (all_rule R_name (t_kids x))
+  end.
+
+Definition sp_type_definition (ty : tree) : outcome sdef :=
+  let l := t_kids ty in
+  let rule := t_rule ty in
+  bindo (sp_desc l) (fun desc =>
+  let extend := match find_rule R_extend l with Some _ => true | None => false end in
+  bindo (sp_name l) (fun name =>
+  bindo (sp_directives l) (fun dirs =>
+  bindo (if rule =? R_scalar_type then Ok KScalar
+         else if (rule =? R_object_type) || (rule =? R_interface_type) then
+           bindo (match find_rule R_fields_definition l with
+                  | None => Ok []
+                  | Some f => mapo sp_field (all_rule R_field_definition (t_kids f))
+                  end) (fun fields =>
+           let impl := sp_names_in R_implements_interfaces l in
+           Ok (if rule =? R_object_type then KObject impl fields else KInterface impl fields))
+         else if rule =? R_union_type then Ok (KUnion (sp_names_in R_union_member_types l))
+         else if rule =? R_enum_type then
+           bindo (match find_rule R_enum_values l with
+                  | None => Ok []
+                  | Some vs =>
+                    mapo (fun v =>
+                      let k := t_kids v in
+                      bindo (sp_desc k) (fun d =>
+                      bindo (oo (find_rule R_enum_value k) (fun e => sp_name (t_kids e))) (fun n =>
+                      bindo (sp_directives k) (fun ds =>
+                      Ok {| ev_desc := d; ev_name := n; ev_dirs := ds |}))))
+                      (all_rule R_enum_value_definition (t_kids vs))
+                  end) (fun vs => Ok (KEnum vs))
+         else if rule =? R_input_object_type then
+           bindo (sp_input_values R_input_fields_definition l) (fun fs => Ok (KInput fs))
+         else Err E_SYNTAX) (fun kind =>
+  Ok (SType extend desc name dirs kind))))).
+
+Definition sp_schema_definition (t : tree) : outcome sdef :=
+  let l := t_kids t in
+  let extend := match find_rule R_extend l with Some _ => true | None => false end in
+  bindo (sp_directives l) (fun dirs =>
+  let roots := map (fun p => (match find_rule R_operation_type (t_kids p) with Some o => t_text o | None => [] end,
+                              match find_rule R_name (t_kids p) with Some n => t_text n | None => [] end))
+                   (all_rule R_operation_type_definition l) in
+  let pick (k : str) := map snd (filter (fun p => str_eqb (fst p) k) roots) in
+  let one (xs : list str) := match xs with [] => Some None | [x] => Some (Some x) | _ => None end in
+  (* a root operation type given twice is an error reported at the first repetition in document order *)
+  match one (pick str_query), one (pick str_mutation), one (pick str_subscription) with
+  | Some q, Some m, Some s =>
+    if negb extend && match q with None => true | Some _ => false end then Err E_MISSING_QUERY_ROOT
+    else Ok (SSchema extend dirs q m s)
+  | _, _, _ => Err E_MULTIPLE_ROOTS
+  end).
+
+Definition sp_directive_definition (t : tree) : outcome sdef :=
+  let l := t_kids t in
+  bindo (sp_desc l) (fun desc =>
+  bindo (sp_name l) (fun name =>
+  bindo (sp_input_values R_arguments_definition l) (fun args =>
+  let repeatable := match find_rule R_repeatable l with
+                    | Some r => negb (match t_text r with [] => true | _ => false end)
+                    | None => false
+                    end in
+  let locs := match find_rule R_directive_locations l with
+              | Some x => map t_text (all_rule R_directive_location (t_kids x))
+              | None => []
+              end in
+  Ok (SDirective desc name args repeatable locs)))).
+
+Definition spec_schema (fuel : nat) (s : str) : outcome (list sdef) :=
+  match parse_rule grammar fuel R_service_document s with
+  | POof => OutOfFuel
+  | PFail => Err E_SYNTAX
+  | PMatch _ _ ts =>
+    match ts with
+    | [doc] =>
+      mapo (fun d =>
+        match t_kids d with
+        | [k] => if t_rule k =? R_schema_definition then sp_schema_definition k
+                 else if t_rule k =? R_directive_definition then sp_directive_definition k
+                 else if t_rule k =? R_type_definition then
+                   match t_kids k with [ty] => sp_type_definition ty | _ => Err E_SYNTAX end
+                 else Err E_SYNTAX
+        | _ => Err E_SYNTAX
+        end) (all_rule R_type_system_definition (t_kids doc))
+    | _ => Err E_SYNTAX
+    end
+  end.
+
+(* ---- equality of service trees ---- *)
+Definition ostr_eqb := opt_eqb str_eqb.
+Definition strs_eqb := list_eqb str_eqb.
+Definition sinput_eqb (a b : sinput) : bool :=
+  ostr_eqb (iv_desc a) (iv_desc b) && str_eqb (iv_name a) (iv_name b) && type_eqb (iv_ty a) (iv_ty b) &&
+  opt_eqb value_eqb (iv_default a) (iv_default b) && dirs_eqb (iv_dirs a) (iv_dirs b).
+Definition sfield_eqb (a b : sfield) : bool :=
+  ostr_eqb (fd_desc a) (fd_desc b) && str_eqb (fd_name a) (fd_name b) && list_eqb sinput_eqb (fd_args a) (fd_args b) &&
+  type_eqb (fd_ty a) (fd_ty b) && dirs_eqb (fd_dirs a) (fd_dirs b).
+Definition senumval_eqb (a b : senumval) : bool :=
+  ostr_eqb (ev_desc a) (ev_desc b) && str_eqb (ev_name a) (ev_name b) && dirs_eqb (ev_dirs a) (ev_dirs b).
+Definition skind_eqb (a b : skind) : bool :=
+  match a, b with
+  | KScalar, KScalar => true
+  | KObject i f, KObject i' f' | KInterface i f, KInterface i' f' => strs_eqb i i' && list_eqb sfield_eqb f f'
+  | KUnion m, KUnion m' => strs_eqb m m'
+  | KEnum v, KEnum v' => list_eqb senumval_eqb v v'
+  | KInput f, KInput f' => list_eqb sinput_eqb f f'
+  | _, _ => false
+  end.
+Definition sdef_eqb (a b : sdef) : bool :=
+  match a, b with
+  | SSchema e d q m s, SSchema e' d' q' m' s' =>
+    Bool.eqb e e' && dirs_eqb d d' && ostr_eqb q q' && ostr_eqb m m' && ostr_eqb s s'
+  | SType e d n ds k, SType e' d' n' ds' k' =>
+    Bool.eqb e e' && ostr_eqb d d' && str_eqb n n' && dirs_eqb ds ds' && skind_eqb k k'
+  | SDirective d n a r l, SDirective d' n' a' r' l' =>
+    ostr_eqb d d' && str_eqb n n' && list_eqb sinput_eqb a a' && Bool.eqb r r' && strs_eqb l l'
+  | _, _ => false
+  end.
+Definition sdoc_eqb := outcome_eqb (list_eqb sdef_eqb).
+
+(* ---- known classes of service documents (on the text) ---- *)
+(* 6: a directive definition without the keyword `repeatable` is marked repeatable *)
+Definition kc_repeatable (fuel : nat) (s : str) : bool :=
+  match parse_rule grammar fuel R_service_document s with
+  | PMatch _ _ [doc] =>
+    existsb (fun d => existsb (fun k =>
+      (t_rule k =? R_directive_definition) &&
+      match find_rule R_repeatable (t_kids k) with
+      | Some r => match t_text r with [] => true | _ => false end
+      | None => false
+      end) (t_kids d)) (t_kids doc)
+  | _ => false
+  end.
+
+Definition known_class_sdl (s : str) : N :=
+  if kc_block_escape s then 1
+  else if existsb kc_block_short_blank (block_bodies (S (length s)) s) then 2
+  else if kc_float_range s then 5
+  else if kc_token_boundary s then 4
+  else if kc_repeatable DOCFUEL s then 6
+  else 0.
+
+(* the specification's tree with the flag of known class 6 taken as the code sets it *)
+Definition force_repeatable (o : outcome (list sdef)) : outcome (list sdef) :=
+  match o with
+  | Ok l => Ok (map (fun d => match d with SDirective a b c _ e => SDirective a b c true e | x => x end) l)
+  | x => x
+  end.
+
+Definition check_sdl (c : str * outcome (list sdef)) : N :=
   let '(s, impl) := c in
-  let model := parse_schema_peg DOCFUEL s in
-  let bad := match parse_rule grammar DOCFUEL R_service_document s with
-             | PMatch _ _ ts => existsb (bad_number 200) ts
-             | _ => false
-             end in
-  let item_eqb (p : N * str * option str) (q : N * str * option str) : bool :=
-      (fst (fst p) =? sdl_kind_code (fst (fst q))) && str_eqb (snd (fst p)) (snd (fst q)) &&
-      opt_eqb str_eqb (snd p) (snd q) in
-  let same :=
-      match impl, model with
-      | Ok a, Ok b => negb bad && list_eqb item_eqb a b
-      | Err k, Err 1 => k =? 1
-      | Err k, Ok _ => if k =? 1 then bad else true   (* MultipleRoots / MissingQueryRoot: builders not modelled *)
-      | _, _ => false
-      end in
-  (* descriptions are block/ordinary strings: the model's value is the code's
-     block_string_value / string_value; a difference is a wrong tree *)
-  match impl, model with
-  | Ok _, Ok _ => verdict same true same 0
-  | _, _ => verdict same true true 0
-  end.
+  let model := parse_schema DOCFUEL s in
+  let sp := spec_schema DOCFUEL s in
+  if sdoc_eqb model sp then verdict (sdoc_eqb impl model) true (sdoc_eqb impl sp) 0
+  else if kc_repeatable DOCFUEL s && sdoc_eqb model (force_repeatable sp) then
+    (* only the repeatable flag separates model and specification: anything else
+       that separates the code from the model is judged against the rest of the tree *)
+    (if sdoc_eqb impl model then 106 else if sdoc_eqb impl sp then V_STALE_OK else V_VIOLATION)
+  else verdict (sdoc_eqb impl model) false (sdoc_eqb impl sp) (known_class_sdl s).
